@@ -191,6 +191,33 @@ def check(ctx):
             if at and at[1] == "tail" and at[2].startswith("compare_exchange"):
                 o = lockrules.ordering_of(body, c["args"][3])
                 ctx.ob("R08.3", f"{k}|publication-cas-release", o in lockrules.ORD_OK_REL, body.loc(b), f"publication CAS success ordering {o}; required >= Release (the consumer must see what was written into the reserved slot)")
+    # ... and the sequence id the index API tries is always rebuilt FROM THE CALLER'S INDEX: every value the loop-carried candidate takes is `slot_index` or
+    # `slot_index + lap * BUFFER_SIZE`.  A candidate taken from the reloaded counter itself ("tail is the only id publishable now") publishes / cancels whatever slot is
+    # next in line -- another producer's, still unwritten -- and answers true for the caller's
+    for fn, field in (("try_publish_leaked_internal_index", "tail"), ("try_unleak_slot_index_internal", "enqueuer_tail")):
+        k = f"{R.AM}::{fn}"
+        f_ = fx.fn_opt(k)
+        if f_ is None: continue
+        body = Body(f_); dg = D.Dag(body)
+        for (b, c) in body.calls:
+            at = R.atomic_target(body, c)
+            if not (at and at[1] == field and at[2].startswith("compare_exchange")): continue
+            exprs = [dg.expr(c["args"][1]), dg.expr(c["args"][2])]
+            phis = []
+            def collect(e, depth=0):
+                if not isinstance(e, tuple) or depth > 30: return
+                if e and e[0] == "phi" and len(e) > 3:
+                    if e not in phis: phis.append(e)
+                    return
+                for x in e:
+                    if isinstance(x, tuple): collect(x, depth + 1)
+            for e in exprs: collect(e)
+            def from_index(e):
+                return C01._mentions(e, lambda x: x[0] == "param" and x[1] == 2)
+            bad = [a for ph in phis for a in ph[3] if not from_index(a) and not (strip_casts(a)[:2] == ("phi", ph[1]))]
+            direct = any(from_index(e) for e in exprs)
+            ctx.ob("R08.3", f"{k}|candidate-id-is-rebuilt-from-the-caller-s-index", (bool(phis) or direct) and not bad, body.loc(b),
+                   "every candidate sequence id is slot_index (+ lap * BUFFER_SIZE)" if not bad else f"a candidate id is `{show(bad[0])[:90]}`: not derived from the caller's slot index")
     # ------------------------------------------------------------------ R08.4 capacity accounting (shared with C02)
     C02 = importlib.import_module("props.C02")
     class Cap(util.PrefixedCtx):
